@@ -346,3 +346,125 @@ impl<'a> ProgGen<'a> {
         GoalT::Exists(vars, Box::new(body))
     }
 }
+
+/// A dense dependency-graph family over ground atoms (where fixed-point/caching bugs live): nodes
+/// `N0..Nk` (structs), one trait `G` (inductive or `#[coinductive]`), each node with 0-2 impls
+/// ("alternatives") whose where-clauses are 0-3 other nodes in random order; nodes without impl are
+/// unprovable ("poison"), impls without conditions are base cases.  Returns (program text, node count).
+pub fn graph_program(rng: &mut Rng, coinductive: bool) -> (String, usize) {
+    let n = 3 + rng.usize_below(4);
+    let mut s = String::new();
+    for i in 0..n {
+        s.push_str(&format!("struct N{} {{}}\n", i));
+    }
+    s.push_str(&format!("{}trait G {{}}\n", if coinductive { "#[coinductive] " } else { "" }));
+    for i in 0..n {
+        let nalt = rng.weighted(&[2, 6, 2]);
+        for _ in 0..nalt {
+            let nc = rng.weighted(&[2, 4, 4, 2]);
+            let mut conds: Vec<usize> = (0..nc).map(|_| rng.usize_below(n)).collect();
+            conds.dedup();
+            if conds.is_empty() {
+                s.push_str(&format!("impl G for N{} {{}}\n", i));
+            } else {
+                let w: Vec<String> = conds.iter().map(|c| format!("N{}: G", c)).collect();
+                s.push_str(&format!("impl G for N{} where {} {{}}\n", i, w.join(", ")));
+            }
+        }
+    }
+    (s, n)
+}
+
+/// closed goals over a graph program: single nodes, conjunctions, `not`
+pub fn graph_goal(rng: &mut Rng, n: usize) -> String {
+    let a = rng.usize_below(n);
+    let b = rng.usize_below(n);
+    match rng.weighted(&[6, 2, 2, 1]) {
+        0 => format!("N{}: G", a),
+        1 => format!("N{}: G, N{}: G", a, b),
+        2 => format!("N{}: G, not {{ N{}: G }}", a, b),
+        _ => format!("not {{ N{}: G }}", a),
+    }
+}
+
+/// Structural fingerprint of a graph-family program as seen from a goal: "acyclic" when no cycle is
+/// reachable from the goal's nodes, "simple" when every reachable cyclic component is one simple
+/// cycle (each of its nodes has exactly one successor inside it), "nested" when some reachable
+/// component has a node with two or more distinct successors inside it (interlocking cycles).
+/// Used only to key known findings by the shape of input they need.
+pub fn graph_shape(program_text: &str, goal_text: &str) -> &'static str {
+    fn nodes_of(s: &str) -> Vec<usize> {
+        // every `N<k>: G`
+        let b = s.as_bytes();
+        let mut v = vec![];
+        let mut i = 0;
+        while i < b.len() {
+            if b[i] == b'N' && (i == 0 || !b[i - 1].is_ascii_alphanumeric()) {
+                let mut j = i + 1;
+                while j < b.len() && b[j].is_ascii_digit() {
+                    j += 1;
+                }
+                if j > i + 1 && s[j..].trim_start().starts_with(':') {
+                    v.push(s[i + 1..j].parse::<usize>().unwrap());
+                }
+                i = j;
+            } else {
+                i += 1;
+            }
+        }
+        v
+    }
+    let mut succ: std::collections::BTreeMap<usize, std::collections::BTreeSet<usize>> = Default::default();
+    for line in program_text.split(|c| c == '\n' || c == '|') {
+        let line = line.trim();
+        if let Some(rest) = line.strip_prefix("impl G for N") {
+            let head: usize = match rest.split(|c: char| !c.is_ascii_digit()).next().and_then(|d| d.parse().ok()) {
+                Some(h) => h,
+                None => continue,
+            };
+            let body = rest.split_once("where").map(|(_, b)| b).unwrap_or("");
+            succ.entry(head).or_default().extend(nodes_of(body));
+        }
+    }
+    // reachable set
+    let mut reach: std::collections::BTreeSet<usize> = Default::default();
+    let mut todo = nodes_of(goal_text);
+    while let Some(x) = todo.pop() {
+        if reach.insert(x) {
+            if let Some(s) = succ.get(&x) {
+                todo.extend(s.iter().cloned());
+            }
+        }
+    }
+    let reaches = |a: usize, b: usize| -> bool {
+        // is there a non-empty path a -> b
+        let mut seen: std::collections::BTreeSet<usize> = Default::default();
+        let mut todo: Vec<usize> = succ.get(&a).map(|s| s.iter().cloned().collect()).unwrap_or_default();
+        while let Some(x) = todo.pop() {
+            if x == b {
+                return true;
+            }
+            if seen.insert(x) {
+                if let Some(s) = succ.get(&x) {
+                    todo.extend(s.iter().cloned());
+                }
+            }
+        }
+        false
+    };
+    let mut shape = "acyclic";
+    for &a in &reach {
+        if !reaches(a, a) {
+            continue;
+        }
+        if shape == "acyclic" {
+            shape = "simple";
+        }
+        // successors of a inside a's component
+        let inside = succ.get(&a).map(|s| s.iter().filter(|&&b| b == a || (reaches(a, b) && reaches(b, a))).count()).unwrap_or(0);
+        if inside >= 2 {
+            shape = "nested";
+        }
+    }
+    shape
+}
